@@ -32,6 +32,9 @@ func checkC01(c *Ctx, r *Report) {
 	typeTableStructs(c, r, "C01.R4.type-table", "wire data of that type is decoded into a struct of another record type (different name compression, text form and Go type)")
 	headerWritten(c, r, "C01.R1.header-written", "PackRR at the end of a buffer reports success without having written the record, and overwrites the last two octets of the record before it")
 	unpackExits(c, r, "C01.R1.unpack-exits", "wire data the RFC layout of the type allows is refused")
+	c01SvcbDupSentinel(c, r, "C01.R4.svcb-dup-sentinel")
+	c01SubnetMasked(c, r, "C01.R8.subnet-masked")
+	txtEmptyList(c, r, "C01.R1.txt-empty", "an RDATA-less TXT-like record (the RFC 2136 class-ANY form) is packed with RDLENGTH 1 and a lone zero octet: unpack followed by pack changes the octets")
 }
 
 // sideStructs are the hand-written wire-format structs with their packers.
@@ -255,7 +258,6 @@ func (c *Ctx) checkUnpackSeq(r *Report, rule, tname, fname string, kinds []strin
 		r.fail(rule, tname, pos, "%s", strings.Join(problems, "; "))
 	}
 }
-
 
 // gatewaySelectorMask: RFC 8777 s.4.2: AMTRELAY's type octet is D(1 bit)|type(7 bits); RFC 4025: IPSECKEY's is the whole octet.
 func gatewaySelectorMask(tag string) int64 {
